@@ -1,6 +1,7 @@
 package main
 
 import (
+	"path"
 	"fmt"
 	"math/rand"
 	"os"
@@ -207,7 +208,7 @@ func pjGenCaller(rng *rand.Rand) (string, bool) {
 				}
 			}
 		} else {
-			b.WriteString("    runs-on: ubuntu-latest\n")
+			b.WriteString("    runs-on: " + []string{"ubuntu-latest", "ubuntu-latest", "gpu-box", "linux-x64", "arm7", "custom5", "[self-hosted, gpu-box]", "[self-hosted, linux, nosuchlabel]", "nosuchlabel", "${{ matrix.os }}"}[rng.Intn(10)] + "\n")
 			if rng.Intn(3) == 0 {
 				b.WriteString("    outputs:\n      o: x\n")
 			}
@@ -242,7 +243,13 @@ func pjGenCaller(rng *rand.Rand) (string, bool) {
 					fmt.Fprintf(&b, "          %s: %s\n", nm, []string{"x", "1", "${{ 1 }}", "${{ bad"}[rng.Intn(4)])
 				}
 			}
-			b.WriteString("      - run: echo " + strings.Join(append(j.refs, stepRefs...), " ") + "\n")
+			varRefs := []string{}
+			for _, v := range []string{"${{ vars.DEPLOY_ENV }}", "${{ vars.deploy_env }}", "${{ vars.NOSUCH }}", "${{ vars.A }}"} {
+				if rng.Intn(4) == 0 {
+					varRefs = append(varRefs, v)
+				}
+			}
+			b.WriteString("      - run: echo " + strings.Join(append(append(j.refs, stepRefs...), varRefs...), " ") + "\n")
 		}
 	}
 	return b.String(), selfCall
@@ -532,8 +539,66 @@ func (e *pjEnv) actionEnvSexp(root *yaml.Node) string {
 	return "(1," + lst(items) + "," + lst(missing) + "," + lst(bases) + ")"
 }
 
+// the configuration file of the scratch repository for one case: labels (glob patterns for path.Match) and
+// config-variables (absent / null / empty / a list)
+var pjConfigs = []string{
+	"",
+	"self-hosted-runner:\n  labels: [gpu-box, 'linux-*', 'arm?']\nconfig-variables: [DEPLOY_ENV, Token_Name]\n",
+	"self-hosted-runner:\n  labels: []\nconfig-variables: []\n",
+	"config-variables: null\n",
+	"self-hosted-runner:\n  labels: ['[', gpu-box]\n",
+	"self-hosted-runner:\n  labels: ['custom[0-9]', 'a\\', '*']\nconfig-variables: [deploy_env]\n",
+	"self-hosted-runner:\n  labels: ['x[', 'gpu-*']\nconfig-variables: [A]\n",
+}
+
+// configEnvSexp: the labels and variables of the parsed configuration, and what Go's path.Match says for every configured
+// label pattern on every scalar of the caller (a label can come from runs-on or from a matrix)
+func pjConfigEnvSexp(cfgSrc string, root *yaml.Node) string {
+	if cfgSrc == "" {
+		return "(E,N,E,E)"
+	}
+	cfg, err := actionlint.ParseConfig([]byte(cfgSrc))
+	if err != nil {
+		return "(E,N,E,E)"
+	}
+	lst := func(xs []string) string {
+		if len(xs) == 0 {
+			return "E"
+		}
+		return "(" + strings.Join(xs, ",") + ")"
+	}
+	var labels []string
+	for _, l := range cfg.SelfHostedRunner.Labels {
+		labels = append(labels, hx(l))
+	}
+	vars := "N"
+	if cfg.ConfigVariables != nil {
+		var vs []string
+		for _, v := range cfg.ConfigVariables {
+			vs = append(vs, hx(v))
+		}
+		vars = lst(vs)
+	}
+	scalars := map[string]bool{}
+	cfScalars(root, scalars)
+	var matches, bad []string
+	for _, p := range cfg.SelfHostedRunner.Labels {
+		for sc := range scalars {
+			m, err := path.Match(p, sc)
+			if err != nil {
+				bad = append(bad, "("+hx(p)+","+hx(sc)+")")
+			} else if m {
+				matches = append(matches, "("+hx(p)+","+hx(sc)+")")
+			}
+		}
+	}
+	sort.Strings(matches)
+	sort.Strings(bad)
+	return "(" + lst(labels) + "," + vars + "," + lst(matches) + "," + lst(bad) + ")"
+}
+
 // pjCase: both driver lines and the real answers for one caller
-func (e *pjEnv) pjCase(src string, prefill bool) (lintLine, lintImpl, exprLine, exprImpl string, ok bool) {
+func (e *pjEnv) pjCase(src string, prefill bool, cfgSrc string) (lintLine, lintImpl, exprLine, exprImpl string, ok bool) {
 	var root yaml.Node
 	if err := yaml.Unmarshal([]byte(src), &root); err != nil {
 		return "", "", "", "", false
@@ -545,8 +610,15 @@ func (e *pjEnv) pjCase(src string, prefill bool) (lintLine, lintImpl, exprLine, 
 	exNumbers(&root, nums)
 	env := e.envSexp(&root)
 	aenv := e.actionEnvSexp(&root)
-	lintLine = "lintwfp " + numsSexp(nums) + " " + lwBadURLs(&root) + " " + env + " " + aenv + " " + node
-	exprLine = "exprwfp " + numsSexp(nums) + " " + env + " " + aenv + " " + node
+	cfgPath := filepath.Join(e.root, ".github", "actionlint.yaml")
+	if cfgSrc == "" {
+		os.Remove(cfgPath)
+	} else {
+		os.WriteFile(cfgPath, []byte(cfgSrc), 0o644)
+	}
+	cenv := pjConfigEnvSexp(cfgSrc, &root)
+	lintLine = "lintwfp " + numsSexp(nums) + " " + lwBadURLs(&root) + " " + env + " " + aenv + " " + cenv + " " + node
+	exprLine = "exprwfp " + numsSexp(nums) + " " + env + " " + aenv + " " + cenv + " " + node
 	l, err := actionlint.NewLinter(nopWriter{}, &actionlint.LinterOptions{Shellcheck: "", Pyflakes: ""})
 	if err != nil {
 		return "", "", "", "", false
@@ -633,7 +705,8 @@ func pjStandard(c *ctx, r *Report, n int) error {
 		if prefill {
 			r.hist("projcall:callees-linted-first")
 		}
-		pmsg, to := guarded(pwTimeout, func() { ll, li, el, ei, ok = env.pjCase(src, prefill) })
+		cfgSrc := pjConfigs[(nAdded/2)%len(pjConfigs)]
+		pmsg, to := guarded(pwTimeout, func() { ll, li, el, ei, ok = env.pjCase(src, prefill, cfgSrc) })
 		if pmsg != "" || to {
 			r.Crashes = append(r.Crashes, Case{Op: "lintwfp", Input: map[string]string{"src": src}, Note: "panic/timeout: " + pmsg})
 			return
@@ -659,13 +732,13 @@ func pjStandard(c *ctx, r *Report, n int) error {
 			if i%4 != 0 {
 				continue
 			}
-			f := strings.SplitN(ll, " ", 6) // lintwfp nums urls env aenv node
-			g := strings.SplitN(exprLines[i], " ", 5)
-			if len(f) != 6 || len(g) != 5 {
+			f := strings.SplitN(ll, " ", 7) // lintwfp nums urls env aenv cenv node
+			g := strings.SplitN(exprLines[i], " ", 6)
+			if len(f) != 7 || len(g) != 6 {
 				continue
 			}
-			a = append(a, "lintwf "+f[1]+" "+f[2]+" "+f[5], "exprwf "+g[1]+" "+g[4])
-			b = append(b, "lintwfp "+f[1]+" "+f[2]+" (0,N,E) (0,E,E,E) "+f[5], "exprwfp "+g[1]+" (0,N,E) (0,E,E,E) "+g[4])
+			a = append(a, "lintwf "+f[1]+" "+f[2]+" "+f[6], "exprwf "+g[1]+" "+g[5])
+			b = append(b, "lintwfp "+f[1]+" "+f[2]+" (0,N,E) (0,E,E,E) (E,N,E,E) "+f[6], "exprwfp "+g[1]+" (0,N,E) (0,E,E,E) (E,N,E,E) "+g[5])
 		}
 		ao, err := runModel(c.driver, a)
 		if err != nil {
